@@ -241,3 +241,34 @@ Definition limit_fanin_run_api (C : Circuit) (k : nat) (steps : list step3) : re
 Definition limit_fanout_run_api (C : Circuit) (k : nat) (steps : list step3) : res Circuit :=
   if (k <? fanout_min_k)%nat then Raise ValueError
   else rmap (with_g C) (steps_api (fanout_step_api gen_limit_tables) fanout_final (c_g C) k ls_init steps).
+
+(* insert_registers(c, num_stages, ff, d_port, q_port, other_flop_io, q_suffix) through the API model, all arguments.
+   ins/outs: iteration order of the blackbox's input / output sets.  `other` is the dict other_flop_io in insertion order:
+   its KEYS are added as inputs when absent and are used as port names, its VALUES are the nodes wired to those ports
+   (this is what the code does; for the default {"clk": "clk"} the two readings coincide). *)
+Record reg_args := { ra_ff : bbdef; ra_ins : list string; ra_outs : list string; ra_d : string; ra_q : string;
+                     ra_other : list (string * string); ra_suffix : string }.
+Definition default_reg_args : reg_args :=
+  {| ra_ff := ff_def; ra_ins := ["clk"; "d"]; ra_outs := ["q"]; ra_d := "d"; ra_q := "q";
+     ra_other := [(clk_name, clk_name)]; ra_suffix := reg_suffix |}.
+(* dict.update: an existing key keeps its position and gets the new value, new keys are appended *)
+Fixpoint dict_set (d : list (string * list string)) (k : string) (v : list string) : list (string * list string) :=
+  match d with [] => [(k, v)] | (k', v') :: r => if decide (k' = k) then (k, v) :: r else (k', v') :: dict_set r k v end.
+Definition splice_api (A : reg_args) (C : Circuit) (n : string) (i : nat) : res Circuit :=
+  let g := c_g C in
+  let fo := elements (fanout g n) in
+  let '(g2, o, q) := add_g (disconnect_g g [n] fo) (n ++ ra_suffix A ++ pretty i) Buf [] fo fl_uid in
+  match o with Fail e => Raise e | Done =>
+  let conns := foldl (λ d kv, dict_set d kv.1 [kv.2]) [(ra_d A, [n]); (ra_q A, [q])] (ra_other A) in
+  let '(C', o') := add_blackbox (with_g C g2) (ra_ff A) ("ff_" ++ n) (ra_ins A) (ra_outs A) conns in
+  match o' with Done => Ok C' | Fail e => Raise e end end.
+Definition add_other_inputs (A : reg_args) (g : circuit) : circuit :=
+  foldl (λ g kv, if bool_decide (kv.1 ∈ dom g) then g else <[kv.1 := mk_node Input false ∅]> g) g (ra_other A).
+Definition insert_registers_api (A : reg_args) (C : Circuit) (s : nat) (order : list string) : res Circuit :=
+  let g := c_g C in
+  if negb (bool_decide (NoDup order) && bool_decide (list_to_set order = dom g)) then BadOrder else
+  if negb (bool_decide (g = ∅)) && negb (acyclicb g) then Raise ValueError else
+  rbind (reg_selection g s order) (λ sel,
+    foldl (λ acc p, rbind acc (λ C', splice_api A C' p.1 p.2)) (Ok (with_g C (add_other_inputs A g))) sel).
+Definition short_flops_gen (dport qport : string) (C : Circuit) : circuit :=
+  set_fold (λ inst g, <[pin inst qport := mk_node Buf false {[pin inst dport]}]> g) (c_g C) (dom (c_bbs C)).
